@@ -69,7 +69,11 @@ func checkID(c ID) *vk.Violation {
 		return vk.Violf("Combine(Split)/identity", c, "CombineMsgID(SplitMsgID(%#016x)) = %#016x", u, back)
 	}
 	s := cmpp.MsgID2String(u)
+	vk.RetainString("MsgID2String", s) // the string belongs to the caller: later calls must not change it
 	if u == 0 {
+		if back := cmpp.MsgIDString2Uint64(s); back != 0 { // also exercises the scanner's failure path
+			return vk.Violf("String2Uint64/empty", c, "MsgIDString2Uint64(%q) = %#x", s, back)
+		}
 		return nil
 	}
 	// The string form is the fixed-width decimal rendering of the seven fields.
@@ -121,12 +125,15 @@ func evalTuple(t vk.TB, tu Tuple) {
 	rec.ReportSeq(t, "tuple", tu, func() *vk.Violation { return checkTuple(tu) })
 	// the composed id also goes through the id-side checks
 	rec.Eval()
-	rec.Report(t, "id", checkID(ID{refCompose(tu)}))
+	cid := ID{refCompose(tu)}
+	rec.ReportSeq(t, "id", cid, func() *vk.Violation { return checkID(cid) })
 }
 
 // TestEnumFields: each field over its full range with every other field at each
 // of its two extremes (all-min / all-max), index-partitioned over the shards.
 func TestEnumFields(t *testing.T) {
+	vk.RetainEnabled = false
+	defer func() { vk.RetainEnabled = true }()
 	rec.RunProbes(t, reg)
 	env := rec.Env()
 	stride := uint64(env.Pick(64, 1)) // quick: 1-in-64 stride of the 2^22 gateway range
